@@ -16,6 +16,7 @@
 -/
 import Atto.Lemmas.RqRoundTrip
 import Atto.Lemmas.B64RoundTrip
+import Atto.Lemmas.RqSend
 namespace Atto
 
 /-! ### example data -/
@@ -37,6 +38,16 @@ def chunkedBody : BodyM :=
     writes := [[], str "hello", [], [], big, str "\r\n0\r\n\r\n", []] }
 def knownBody : BodyM := { kind := .known 11, writes := [str "hello", [], str " world"] }
 def emptyBody : BodyM := { kind := .empty, writes := [str "ignored"] }
+def req : Req :=
+  { method := str "POST", methodM := .post, headers := tryPrepare settings hdrs knownBody, body := knownBody,
+    bodyRewindable := true }
+def proxyUrl : Url :=
+  { scheme := str "http", user := str "pu", pass := some (str "pp"), host := str "proxy.local", hostKind := 0,
+    port := some 3128, effPort := 3128, path := str "/", query := none, fragment := none }
+def viaProxy : SendSettings :=
+  { followRedirects := true, maxRedirections := 5, maxHeaders := 100,
+    proxy := { httpProxy := some proxyUrl, httpsProxy := none, disabled := false, noProxy := [] } }
+def hop : Hop := { script := [.data (str "HTTP/1.1 200 OK\r\ncontent-length: 0\r\n\r\n")], resolved := none }
 end C07
 
 /-! ### (b) framing headers -/
@@ -178,12 +189,12 @@ def expectedBody (b : BodyM) : Bytes :=
   | _ => b.writes.flatten
 
 /-- the body alone: the parser, told the headers the model wrote, reads back the body octets and
-    leaves nothing -/
-theorem C07_body_roundtrip (s : PrepSettings) (h0 : Headers) (b : BodyM) (u : Url)
-    (hw : (setHost (tryPrepare s h0 b) u).WFReq) (hb : b.Honest) :
-    rqParseBody (setHost (tryPrepare s h0 b) u) (writeBody b) = some (expectedBody b, []) := by
-  have hl : ∀ p ∈ setHost (tryPrepare s h0 b) u, lowerBytes p.1 = p.1 := fun p hp => (hw p hp).2.1
-  have hfr := (C07_framing_setHost s h0 b u).1
+    leaves nothing (`hu` is the URL `set_host` was called with) -/
+theorem C07_body_roundtrip (s : PrepSettings) (h0 : Headers) (b : BodyM) (hu : Url)
+    (hw : (setHost (tryPrepare s h0 b) hu).WFReq) (hb : b.Honest) :
+    rqParseBody (setHost (tryPrepare s h0 b) hu) (writeBody b) = some (expectedBody b, []) := by
+  have hl : ∀ p ∈ setHost (tryPrepare s h0 b) hu, lowerBytes p.1 = p.1 := fun p hp => (hw p hp).2.1
+  have hfr := (C07_framing_setHost s h0 b hu).1
   rw [rq_nameCL, rq_nameTE] at hfr
   unfold rqParseBody rqFraming
   rw [rq_fieldValues_getAll _ _ hl, rq_fieldValues_getAll _ _ hl]
@@ -205,41 +216,124 @@ theorem C07_body_roundtrip (s : PrepSettings) (h0 : Headers) (b : BodyM) (u : Ur
     have hlow : lowerBytes (str "chunked") = str "chunked" := by decide +kernel
     simp [hfr.1, hfr.2, hlow, hd, expectedBody, hk, rq_nonEmpty_flatten]
 
+/-- (a), general form: either target form (`vp` = plain http through a proxy: absolute-form), the
+    Host field taken from any URL `hu` (the proxy's for plain http through a proxy), and the
+    well-formedness hypothesis put on the header map that is actually WRITTEN — so `h0` itself may
+    contain anything `tryPrepare` / `setHost` drop (framing fields, a stale Host). -/
+theorem C07_roundtrip_gen (m : Bytes) (u hu : Url) (vp : Bool) (s : PrepSettings) (h0 : Headers) (b : BodyM)
+    (hm : rqToken m) (ht : requestTarget u vp ≠ [])
+    (ht' : ∀ c ∈ requestTarget u vp, c ≠ 32 ∧ c ≠ 13 ∧ c ≠ 10)
+    (hw : (setHost (tryPrepare s h0 b) hu).WFReq) (hb : b.Honest) :
+    parseRequest (writeRequest m u vp (setHost (tryPrepare s h0 b) hu) b) =
+      some ({ method := m, target := requestTarget u vp, headers := setHost (tryPrepare s h0 b) hu,
+              body := expectedBody b }, []) := by
+  unfold writeRequest
+  rw [rq_parse_head m (requestTarget u vp) _ _ hm ht ht' hw.head, C07_body_roundtrip s h0 b hu hw hb]
+
 /-- (a) For every method (non-empty token), every URL whose origin-form is non-empty and free of
     SP / CR / LF, every well-formed caller header map, every honest body (known length: the writes
     add up to the announced length; streaming: ANY sequence of writes, empty and huge slices
     included; none), the bytes written are exactly one HTTP/1.1 request: the independent parser
     decodes them to the same method, target, header fields (in order) and body octets, and
-    nothing is left over on the connection. -/
-theorem C07_roundtrip (m : Bytes) (u : Url) (s : PrepSettings) (h0 : Headers) (b : BodyM)
+    nothing is left over on the connection.
+    (`_partial`: the brief's statement has no hypothesis on the three values `tryPrepare` / `setHost`
+    add verbatim — User-Agent, the body's Content-Type, the authority; without them it is false,
+    see `C07_roundtrip_full_refuted`.) -/
+theorem C07_roundtrip_partial (m : Bytes) (u : Url) (s : PrepSettings) (h0 : Headers) (b : BodyM)
     (hm : rqToken m) (ht : u.originForm ≠ []) (ht' : ∀ c ∈ u.originForm, c ≠ 32 ∧ c ≠ 13 ∧ c ≠ 10)
     (hh : h0.WFReq) (hua : rqWFValue s.userAgent) (hct : ∀ t, b.contentType = some t → rqWFValue t)
     (hau : rqWFValue u.authority) (hb : b.Honest) :
     parseRequest (writeRequest m u false (setHost (tryPrepare s h0 b) u) b) =
       some ({ method := m, target := u.originForm, headers := setHost (tryPrepare s h0 b) u,
-              body := expectedBody b }, []) := by
-  have hw := rq_WFReq_setHost _ u (rq_WFReq_tryPrepare s h0 b hh hua hct) hau
-  have e : writeRequest m u false (setHost (tryPrepare s h0 b) u) b =
-      m ++ [32] ++ u.originForm ++ str " HTTP/1.1\r\n" ++ writeHeaders (setHost (tryPrepare s h0 b) u) ++ writeBody b := by
-    simp [writeRequest, requestTarget]
-  rw [e, rq_parse_head m u.originForm _ _ hm ht ht' hw.head, C07_body_roundtrip s h0 b u hw hb]
+              body := expectedBody b }, []) :=
+  C07_roundtrip_gen m u u false s h0 b hm ht ht'
+    (rq_WFReq_setHost _ u (rq_WFReq_tryPrepare s h0 b hh hua hct) hau) hb
 
 /-- non-vacuity: POST, streaming body with empty and > 8 KiB slices, caller framing headers -/
-example := C07_roundtrip (str "POST") C07.url C07.settings C07.hdrs C07.chunkedBody
+example := C07_roundtrip_partial (str "POST") C07.url C07.settings C07.hdrs C07.chunkedBody
   (by decide +kernel) (by decide +kernel) (by decide +kernel) (by decide +kernel) (by decide +kernel)
   (by decide +kernel) (by decide +kernel) trivial
 /-- known length -/
-example := C07_roundtrip (str "PUT") C07.url C07.settings C07.hdrs C07.knownBody
+example := C07_roundtrip_partial (str "PUT") C07.url C07.settings C07.hdrs C07.knownBody
   (by decide +kernel) (by decide +kernel) (by decide +kernel) (by decide +kernel) (by decide +kernel)
   (by decide +kernel) (by decide +kernel) (by decide +kernel)
 /-- no body: a `Body` of kind `empty` is not asked to write -/
 example : (parseRequest (writeRequest (str "GET") C07.url false
     (setHost (tryPrepare C07.settings C07.hdrs C07.emptyBody) C07.url) C07.emptyBody)).map (fun p => (p.1.body, p.2)) =
     some ([], []) := by
-  rw [C07_roundtrip (str "GET") C07.url C07.settings C07.hdrs C07.emptyBody
+  rw [C07_roundtrip_partial (str "GET") C07.url C07.settings C07.hdrs C07.emptyBody
     (by decide +kernel) (by decide +kernel) (by decide +kernel) (by decide +kernel) (by decide +kernel)
     (by decide +kernel) (by decide +kernel) trivial]
   rfl
+/-- absolute-form target and the Host of another URL (plain http through a proxy) -/
+example := C07_roundtrip_gen (str "DELETE") C07.url { C07.url with host := str "proxy.local", port := none } true
+  C07.settings C07.hdrs C07.knownBody (by decide +kernel) (by decide +kernel) (by decide +kernel)
+  (by decide +kernel) (by decide +kernel)
+
+/-- the brief's statement of (a): hypotheses on `h0` only -/
+def C07_roundtrip_full : Prop :=
+  ∀ (m : Bytes) (u : Url) (s : PrepSettings) (h0 : Headers) (b : BodyM),
+    rqToken m → u.originForm ≠ [] → (∀ c ∈ u.originForm, c ≠ 32 ∧ c ≠ 13 ∧ c ≠ 10) → h0.WFReq → b.Honest →
+    parseRequest (writeRequest m u false (setHost (tryPrepare s h0 b) u) b) =
+      some ({ method := m, target := u.originForm, headers := setHost (tryPrepare s h0 b) u,
+              body := expectedBody b }, [])
+
+/-- counterexample: a configured User-Agent with a trailing blank is written verbatim; a reader
+    strips optional whitespace around field values, so the field read back is `ua`, not `ua ` -/
+theorem C07_roundtrip_full_refuted : ¬ C07_roundtrip_full := by
+  intro h
+  have := h (str "GET") C07.url { allowCompression := false, userAgent := str "ua " } [] { kind := .empty }
+    (by decide +kernel) (by decide +kernel) (by decide +kernel) (by decide +kernel) trivial
+  revert this
+  decide +kernel
+
+/-! ### (a) on the connection: the first hop of `send` -/
+
+theorem rq_setHost_setHost (h : Headers) (a c : Url) : setHost (setHost h a) c = setHost h c := by
+  simp [setHost, Headers.insert, Headers.remove, List.filter_append, List.filter_filter]
+
+/-- (a) for what `send` writes on its first connection when that is not a CONNECT tunnel (direct,
+    or plain http through a proxy): exactly one request, decoded back to the caller's method, the
+    target of Props/C08, the prepared header fields with the hop's Host, and the body octets. -/
+theorem C07_roundtrip_first_hop (S : SendSettings) (req : Req) (cap : Nat) (url : Url) (hop : Hop)
+    (rest : List Hop) (s : PrepSettings) (h0 : Headers)
+    (hprep : req.headers = tryPrepare s h0 req.body) (htun : rqIsTunnel S url = false)
+    (hm : rqToken req.method)
+    (ht : requestTarget url (url.scheme == str "http" && (S.proxy.forUrl url).isSome) ≠ [])
+    (ht' : ∀ c ∈ requestTarget url (url.scheme == str "http" && (S.proxy.forUrl url).isSome),
+      c ≠ 32 ∧ c ≠ 13 ∧ c ≠ 10)
+    (hw : (rqHopHeaders S url req.headers).WFReq) (hb : req.body.Honest) :
+    ∃ o tail f, send S req cap url (hop :: rest) = (o :: tail, f) ∧
+      parseRequest o.wrote =
+        some ({ method := req.method,
+                target := requestTarget url (url.scheme == str "http" && (S.proxy.forUrl url).isSome),
+                headers := rqHopHeaders S url req.headers, body := expectedBody req.body }, []) := by
+  obtain ⟨tail, f, h⟩ := rq_sendLoop_plain S req cap hop rest url 0 req.headers true htun
+  refine ⟨_, tail, f, h, ?_⟩
+  have hbody : rqHopBody req true = req.body := by simp [rqHopBody]
+  simp only [rqPlainOut, hbody]
+  obtain ⟨hu, hhu⟩ : ∃ hu, rqHopHeaders S url req.headers = setHost (tryPrepare s h0 req.body) hu := by
+    unfold rqHopHeaders
+    rw [hprep]
+    cases S.proxy.forUrl url with
+    | none => exact ⟨url, rfl⟩
+    | some p =>
+      by_cases hs : url.scheme = str "http"
+      · exact ⟨p, by simp [hs]⟩
+      · exact ⟨url, by simp [hs]⟩
+  rw [hhu] at hw ⊢
+  exact C07_roundtrip_gen req.method url hu _ s h0 req.body hm ht ht' hw hb
+
+/-- non-vacuity: `send` through an http proxy; absolute-form target, the proxy's Host -/
+example : ∃ o tail f, send C07.viaProxy C07.req 8 C07.url [C07.hop] = (o :: tail, f) ∧
+    (parseRequest o.wrote).map (fun p => (p.1.method, p.1.target, p.1.body, p.2)) =
+      some (str "POST", str "http://example.com:8080/a/b?x=1&y=%20", str "hello world", []) := by
+  obtain ⟨o, tail, f, h, hp⟩ := C07_roundtrip_first_hop C07.viaProxy C07.req 8 C07.url C07.hop [] C07.settings
+    C07.hdrs rfl (by decide +kernel) (by decide +kernel) (by decide +kernel) (by decide +kernel)
+    (by decide +kernel) (by decide +kernel)
+  refine ⟨o, tail, f, h, ?_⟩
+  rw [hp]
+  decide +kernel
 
 /-! ### necessity of the honesty and value hypotheses (counterexamples, evaluated) -/
 
